@@ -87,7 +87,7 @@ def generate(seed, tier):
         ops[-1]['content'] = {'seed': 5, 'size': d['maxdata'] + g.pick([100000, 300000]), 'alpha': 'zero'}
     if g.chance(0.12):
         # whatever the device calls itself in its CNXN payload (no state prefix, an unknown state, nothing at all): a CNXN is a CNXN
-        d['banner_hex'] = g.pick([b'', b'\x00', b'device\x00', b'emulator-5554\x00', b'Device::ro.product.name=x', b'offline::', b'unauthorized::x', b'host::features=cmd']).hex() or '00'
+        d['banner_hex'] = g.pick([b'', b'\x00', b'device\x00', b'emulator-5554\x00', b'Device::ro.product.name=x', b'offline::', b'unauthorized::x', b'host::features=cmd', b'sideload::ro.product.name=x', b'rescue::', b'recovery::ro.product.name=x', b'bootloader::']).hex() or '00'
     elif g.chance(0.15):
         d['banner_hex'] = g.pick([b'device::ro.product.model=Caf\xe9 Phone;ro.product.name=x', b'device::\xff\xfe\x00\x80binary', b'device::ro.product.model=\xc4\xe3\xba\xc3;features=cmd\x00\xc3']).hex()
     cfg = {'frag': g.pick(['whole', 'mixed', 'boundary']), 'call_cost': 1e-5, 'idle_cost': 0.05}
